@@ -42,8 +42,11 @@ def append_advance(prog, res, slots):
     if not calls:
         raise AnalysisBroken("%s no longer calls file_write" % f.name)
     for b, i, s in calls:
+        from .. import congr
         call = [c for c in ir.calls_in(s) if c.get("fn") == "file_write"][0]
-        off, beg, end = call["args"][1], call["args"][2], call["args"][3]
+        off = call["args"][1]
+        beg = congr.inline_expr(prog, f, call["args"][2], ptrs=True)
+        end = congr.inline_expr(prog, f, call["args"][3], ptrs=True)
         cur = ir.ap(off)
         inst = "%s: file_write at cursor %s" % (f.name, cur)
         # end = beg + N
@@ -65,6 +68,7 @@ def append_advance(prog, res, slots):
                      "%s writes at %s but never advances it: every packet overwrites the previous one" % (f.name, cur))
             continue
         for bb, ii, ss, op, rhs in adv:
+            rhs = congr.inline_expr(prog, f, rhs, ptrs=True)
             if op != "+=" or not same_expr(rhs, n_expr):
                 res.fail("R-APPEND-ADVANCE", inst, "R-APPEND-ADVANCE|%s|amount" % f.name, f.loc(ss),
                          "%s advances %s by %s but wrote %s bytes" % (f.name, cur, ir.render(rhs), ir.render(n_expr)))
